@@ -140,7 +140,7 @@ def run(tier):
     # file must also equal the one a single-action invocation writes (one generator must not alter what the next one reads)
     multi = [("features", "extended", "arduino", "zonedb,tzdb"), ("features", "basic", "arduino", "zonedb,zonelist,tzdb")]
     singles = [("features", "extended", None, "tzdb"), ("features", "basic", None, "tzdb"), ("features", "basic", "arduino", "zonedb"),
-               ("features", "basic", None, "zonelist")]
+               ("features", "basic", None, "zonelist"), ("features", "extended", None, "zonelist")]     # extended: emitted zones with truncation notes
     for name, scope, lang, action in multi:
         jobs.append((indirs[name], scope, lang, action, work, "%s-%s-%s-%s" % (name, scope, lang, action), 2000, 2050,
                      seeds_ordering_a_set_differently(action.split(","))))
@@ -252,15 +252,29 @@ def run(tier):
                 v.violation("c20:python-header-counters", "a count stated in the generated Python headers differs from the entries present",
                             {"job": tag, "counter": what, "stated": st_v, "present": re_v})
         samples.append({"job": tag, "numInfos": ni, "numEras": ne, "numPolicies": npol, "numRules": nr})
-    # zones.txt
-    out = outputs.get("tz2025b-extended-None-zonelist")
-    if out is not None:
-        c = tzpipe.compile_source(indirs["tz2025b"], "extended", 2000, 2050)
-        listed = [l.strip() for l in (out / "zones.txt").read_text().splitlines() if l.strip() and not l.startswith("#")]
-        counters["zonelist_names"] = len(listed)
+    # zones.txt: every invocation that wrote one (2025b extended; the hand-written source in basic scope, where emitted zones
+    # carry truncation notes; the multi-action run), against the zones emitted by the same source and scope, and its own
+    # "numZones" line against the names it lists
+    for tag, out in sorted(outputs.items()):
+        if out is None or not (out / "zones.txt").exists():
+            continue
+        pname, pscope = tag.split("-")[0], tag.split("-")[1]
+        if tag.startswith("recon-"):
+            pname, pscope = "-".join(tag.split("-")[:2]), tag.split("-")[2]
+        c = tzpipe.compile_source(indirs[pname], pscope, 2000, 2050)
+        ztxt = (out / "zones.txt").read_text()
+        listed = [l.strip() for l in ztxt.splitlines() if l.strip() and not l.startswith("#")]
+        counters["zonelist_names"] = counters.get("zonelist_names", 0) + len(listed)
+        counters["zonelist_files"] = counters.get("zonelist_files", 0) + 1
+        counters["zonelist_noted_zones_emitted"] = counters.get("zonelist_noted_zones_emitted", 0) + len(set(c.tzdb["zones_map"]) & set(c.tzdb["notable_zones"]))
         if sorted(listed) != sorted(c.tzdb["zones_map"]):
             v.violation("c20:zonelist-differs", "zones.txt is not the set of emitted zones",
-                        {"only_list": sorted(set(listed) - set(c.tzdb["zones_map"]))[:5], "only_emitted": sorted(set(c.tzdb["zones_map"]) - set(listed))[:5]})
+                        {"job": tag, "only_list": sorted(set(listed) - set(c.tzdb["zones_map"]))[:5], "only_emitted": sorted(set(c.tzdb["zones_map"]) - set(listed))[:5]})
+        mz = re.search(r"^# numZones: (\d+)", ztxt, re.M)
+        if not mz or int(mz.group(1)) != len(listed):
+            v.violation("c20:zonelist-count", "zones.txt states a number of zones different from the names it lists", {"job": tag, "stated": mz.group(1) if mz else None, "listed": len(listed)})
+    if counters.get("zonelist_files", 0) < 3 or counters.get("zonelist_noted_zones_emitted", 0) < 3:
+        v.inconclusive_because("zones.txt was not examined on a source with noted zones: %r" % {k: n for k, n in counters.items() if k.startswith("zonelist")})
     # arduino header counters vs compiled content, basic subset of extended with identical behaviour
     name = "tz2025b"
     p = srcs[name]
